@@ -337,6 +337,272 @@ theorem byteArray_tie (l : Line) (name value : Bytes) :
   · rw [if_neg h1, if_neg h1]
     exact baBody_step l name value false
 
+/-! ### appendIP6 -/
+
+/-- the short-circuit test `ip[j*2] != 0x00 || ip[j*2+1] != 0x00` as the generated code evaluates it -/
+theorem groupNonZero_gen (ip : Bytes) (n : Nat) :
+    (do let t3 ← idxI ip (((n : Nat) : Int) * (2 : Int))
+        (if (t3 ≠ (0 : UInt8)) then pure true else (do let t4 ← idxI ip ((((n : Nat) : Int) * (2 : Int)) + (1 : Int)); pure (decide ((t4 ≠ (0 : UInt8))))) : Outcome Bool)) =
+      groupNonZero ip n := by
+  have h1 : ((n : Nat) : Int) * 2 = ((n * 2 : Nat) : Int) := by omega
+  have h2 : ((n : Nat) : Int) * 2 + 1 = ((n * 2 + 1 : Nat) : Int) := by omega
+  rw [h2, h1, idxI_natCast, idxI_natCast]
+  unfold groupNonZero
+  cases idx ip (n * 2) with
+  | ok a =>
+    simp only [Outcome.bind_ok]
+    by_cases ha : a = 0
+    · simp only [ha, ne_eq, not_true_eq_false, if_false, bne_self_eq_false, Bool.false_eq_true]
+      cases idx ip (n * 2 + 1) with
+      | ok b => by_cases hb : b = 0 <;> simp [hb]
+      | _ => rfl
+    · simp [ha]
+  | _ => rfl
+
+theorem gnz_step {β} (ip : Bytes) (n : Nat) (K : Bool → Outcome β) :
+    (do let t3 ← idxI ip (((n : Nat) : Int) * (2 : Int))
+        let c1 ← ((if (t3 ≠ (0 : UInt8)) then pure true else (do let t4 ← idxI ip ((((n : Nat) : Int) * (2 : Int)) + (1 : Int)); pure (decide ((t4 ≠ (0 : UInt8))))) : Outcome Bool))
+        K c1) = (groupNonZero ip n >>= K) := by
+  rw [← groupNonZero_gen, bind_assoc]
+
+/-- inner zero-run loop (`for ; j < 8; j++`), `j = 8 - k` -/
+theorem ip6_loop2_eq (ip : Bytes) (i : Nat) : ∀ (k fuel : Nat) (s e : Int), k ≤ 8 → k < fuel →
+    (genLine_appendIP6_loop2 ip (i : Int) fuel s e ((8 - k : Nat) : Int) >>= fun r => pure (r.1, r.2.1)) =
+      zInner (groupNonZero ip) i k s e := by
+  intro k
+  induction k with
+  | zero =>
+    intro fuel s e _ hf
+    cases fuel with
+    | zero => omega
+    | succ f => rw [genLine_appendIP6_loop2, zInner]; simp
+  | succ k ih =>
+    intro fuel s e hk hf
+    cases fuel with
+    | zero => omega
+    | succ f =>
+      rw [genLine_appendIP6_loop2, zInner]
+      have hj : (((8 - (k + 1) : Nat) : Int) < 8) := by omega
+      rw [if_pos hj]
+      rw [gnz_step, bind_assoc]
+      congr 1; funext c
+      cases c with
+      | true => rfl
+      | false =>
+        have hn : ((8 - (k + 1) : Nat) : Int) + 1 = ((8 - k : Nat) : Int) := by omega
+        simp only [Bool.false_eq_true, if_false, hn]
+        by_cases hz : ((8 - (k + 1) : Nat) : Int) - (i : Int) > 0 ∧ ((8 - (k + 1) : Nat) : Int) - (i : Int) > e - s
+        · simp only [hz, and_self, if_true, Outcome.pure_eq, Outcome.bind_ok]
+          exact ih f _ _ (by omega) (by omega)
+        · simp only [hz, if_false, Outcome.pure_eq, Outcome.bind_ok]
+          exact ih f _ _ (by omega) (by omega)
+
+/-- outer zero-run loop (`for i := 0; i < 8; i++`), `i = 8 - k` -/
+theorem ip6_loop1_eq (ip : Bytes) : ∀ (k fuel : Nat) (s e : Int), k ≤ 8 → k < fuel →
+    genLine_appendIP6_loop1 ip fuel s e ((8 - k : Nat) : Int) = zOuter (groupNonZero ip) k s e := by
+  intro k
+  induction k with
+  | zero =>
+    intro fuel s e _ hf
+    cases fuel with
+    | zero => omega
+    | succ f => rw [genLine_appendIP6_loop1, zOuter]; simp
+  | succ k ih =>
+    intro fuel s e hk hf
+    cases fuel with
+    | zero => omega
+    | succ f =>
+      rw [genLine_appendIP6_loop1, zOuter]
+      have hj : (((8 - (k + 1) : Nat) : Int) < 8) := by omega
+      rw [if_pos hj]
+      have hfuel : ((8 : Int) - ((8 - (k + 1) : Nat) : Int)).toNat + 1 = k + 1 + 1 := by omega
+      have hn : ((8 - (k + 1) : Nat) : Int) + 1 = ((8 - k : Nat) : Int) := by omega
+      have h2 := ip6_loop2_eq ip (8 - (k + 1)) (k + 1) (k + 1 + 1) s e hk (by omega)
+      simp only [hfuel, hn]
+      rw [← h2, bind_assoc]
+      congr 1; funext r
+      simp only [Outcome.pure_eq, Outcome.bind_ok]
+      exact ih f _ _ (by omega) (by omega)
+
+/-- one rendered group: `if ip[i*2] != 0 { NLZ(ip[i*2]); writeHex(ip[i*2+1]) } else { NLZ(ip[i*2+1]) }; ':'` -/
+theorem ip6Group_step (l : Line) (ip : Bytes) (n : Nat) (K : GLine → Outcome GLine) (K' : Line → Outcome Line)
+    (h : ∀ l', K (G l') = liftG (K' l')) :
+    (do let l ← (do
+            let t5 ← idxI ip (((n : Nat) : Int) * (2 : Int))
+            if (t5 ≠ (0 : UInt8)) then do
+              let t6 ← idxI ip (((n : Nat) : Int) * (2 : Int))
+              let l ← genLine_writeHexNoleadingZeros (G l) t6
+              let t7 ← idxI ip ((((n : Nat) : Int) * (2 : Int)) + (1 : Int))
+              let l ← genLine_writeHex l t7
+              pure l
+            else do
+              let t8 ← idxI ip ((((n : Nat) : Int) * (2 : Int)) + (1 : Int))
+              let l ← genLine_writeHexNoleadingZeros (G l) t8
+              pure l)
+        let l ← genLine_appendByte l (58 : UInt8)
+        K l) = liftG (ip6Group l ip n >>= K') := by
+  have h1 : ((n : Nat) : Int) * 2 = ((n * 2 : Nat) : Int) := by omega
+  have h2 : ((n : Nat) : Int) * 2 + 1 = ((n * 2 + 1 : Nat) : Int) := by omega
+  rw [h2, h1, idxI_natCast, idxI_natCast]
+  unfold ip6Group
+  cases hx : idx ip (n * 2) with
+  | ok hi =>
+    simp only [Outcome.bind_ok]
+    by_cases hz : hi = 0
+    · subst hz
+      have hb : ((0 : UInt8) != 0) = false := by decide
+      simp only [ne_eq, not_true_eq_false, if_false, hb, Bool.false_eq_true, PV.Lemmas.FastlogLoops.bind_assoc]
+      apply val_step; intro lo
+      rw [writeHexNLZ_tie]; apply liftG_bind; intro l1
+      rw [appendByte_tie]; exact liftG_bind _ _ _ h
+    · have hb : (hi != 0) = true := by simp [hz]
+      simp only [ne_eq, hz, not_false_eq_true, if_true, hb, PV.Lemmas.FastlogLoops.bind_assoc]
+      rw [writeHexNLZ_tie]; apply liftG_bind; intro l1
+      apply val_step; intro lo
+      rw [writeHex_tie]; apply liftG_bind; intro l2
+      rw [appendByte_tie]; exact liftG_bind _ _ _ h
+  | panic => rfl
+  | err e => rfl
+  | hang => rfl
+
+/-- rendering loop (`for i := 0; i < 8; i++` with the two `continue`s), `i = 8 - k` -/
+theorem ip6_loop3_eq (ip : Bytes) (s e : Int) : ∀ (k fuel : Nat) (l : Line), k ≤ 8 → k < fuel →
+    genLine_appendIP6_loop3 ip s e fuel (G l) ((8 - k : Nat) : Int) = liftG (ip6Loop ip s e k l) := by
+  intro k
+  induction k with
+  | zero =>
+    intro fuel l _ hf
+    cases fuel with
+    | zero => omega
+    | succ f => rw [genLine_appendIP6_loop3, ip6Loop]; simp
+  | succ k ih =>
+    intro fuel l hk hf
+    cases fuel with
+    | zero => omega
+    | succ f =>
+      rw [genLine_appendIP6_loop3, ip6Loop]
+      have hj : (((8 - (k + 1) : Nat) : Int) < 8) := by omega
+      rw [if_pos hj]
+      have hn : ((8 - (k + 1) : Nat) : Int) + 1 = ((8 - k : Nat) : Int) := by omega
+      simp only [hn]
+      have hrec : ∀ l', genLine_appendIP6_loop3 ip s e f (G l') ((8 - k : Nat) : Int) = liftG (ip6Loop ip s e k l') :=
+        fun l' => ih f l' (by omega) (by omega)
+      by_cases h1 : ((8 - (k + 1) : Nat) : Int) = s
+      · rw [if_pos h1, if_pos h1]
+        by_cases h0 : s = 0
+        · rw [if_pos h0, if_pos h0]
+          rw [appendByte_tie]; apply liftG_bind; intro l1
+          rw [appendByte_tie]; exact liftG_bind _ _ _ hrec
+        · rw [if_neg h0, if_neg h0]
+          simp only [Outcome.pure_eq, Outcome.bind_ok]
+          rw [appendByte_tie]; exact liftG_bind _ _ _ hrec
+      · rw [if_neg h1, if_neg h1]
+        by_cases h2 : ((8 - (k + 1) : Nat) : Int) ≥ s ∧ ((8 - (k + 1) : Nat) : Int) ≤ e
+        · rw [if_pos h2, if_pos h2]; exact hrec l
+        · rw [if_neg h2, if_neg h2]
+          exact ip6Group_step l ip _ _ _ hrec
+
+theorem bind_eq_ok {α β} {x : Outcome α} {f : α → Outcome β} {b : β} (h : (x >>= f) = .ok b) :
+    ∃ a, x = .ok a ∧ f a = .ok b := by
+  cases x with
+  | ok a => exact ⟨a, rfl, h⟩
+  | panic => exact absurd h (by simp)
+  | err e => exact absurd h (by simp)
+  | hang => exact absurd h (by simp)
+
+theorem appendByte_pos {l l' : Line} {v : UInt8} (h : appendByte l v = .ok l') : 1 ≤ l'.idx := by
+  unfold appendByte at h
+  split at h
+  · cases h; simp
+  · cases h
+
+theorem ip6Group_pos {l l' : Line} {ip : Bytes} {i : Nat} (h : ip6Group l ip i = .ok l') : 1 ≤ l'.idx := by
+  unfold ip6Group at h
+  obtain ⟨_, _, h⟩ := bind_eq_ok h
+  dsimp only at h
+  split at h
+  · obtain ⟨_, _, h⟩ := bind_eq_ok h
+    obtain ⟨_, _, h⟩ := bind_eq_ok h
+    obtain ⟨_, _, h⟩ := bind_eq_ok h
+    exact appendByte_pos h
+  · obtain ⟨_, _, h⟩ := bind_eq_ok h
+    obtain ⟨_, _, h⟩ := bind_eq_ok h
+    exact appendByte_pos h
+
+/-- **the cursor invariant behind the trailing `l.index--` of `appendIP6`**: when the last group is not elided
+    (`endZ < 7`) the rendering loop has written at least one byte (the last iteration ends with `appendByte(':')`), so the
+    decrement never takes the cursor below zero — Go's `int` cursor and the model's `Nat` cursor agree -/
+theorem ip6Loop_pos (ip : Bytes) (s e : Int) (he : e < 7) : ∀ (k : Nat), 1 ≤ k → k ≤ 8 → ∀ (l l' : Line),
+    ip6Loop ip s e k l = .ok l' → 1 ≤ l'.idx := by
+  intro k
+  induction k with
+  | zero => intro h; omega
+  | succ k ih =>
+    intro _ hk l l' h
+    have hlast : ∀ l1 : Line, 1 ≤ l1.idx → ip6Loop ip s e k l1 = .ok l' → 1 ≤ l'.idx := by
+      intro l1 h1 hl
+      cases k with
+      | zero => rw [ip6Loop] at hl; cases hl; exact h1
+      | succ k' => exact ih (by omega) (by omega) l1 l' hl
+    rw [ip6Loop] at h
+    dsimp only at h
+    split at h
+    · split at h
+      · obtain ⟨l1, _, h⟩ := bind_eq_ok h
+        obtain ⟨l2, h2, h⟩ := bind_eq_ok h
+        exact hlast l2 (appendByte_pos h2) h
+      · obtain ⟨l1, _, h⟩ := bind_eq_ok h
+        obtain ⟨l2, h2, h⟩ := bind_eq_ok h
+        exact hlast l2 (appendByte_pos h2) h
+    · split at h
+      · rename_i hskip
+        cases k with
+        | zero => omega
+        | succ k' => exact ih (by omega) (by omega) l l' h
+      · obtain ⟨l1, h1, h⟩ := bind_eq_ok h
+        exact hlast l1 (ip6Group_pos h1) h
+
+/-- **appendIP6** (fastlog's own RFC 5952 writer): the nested zero-run search with `break`, the rendering loop with its two
+    `continue`s, and the trailing `l.index--` — for every line and every byte string -/
+theorem appendIP6_tie (l : Line) (ip : Bytes) : genLine_appendIP6 (G l) ip = liftG (appendIP6 l ip) := by
+  unfold genLine_appendIP6 appendIP6
+  by_cases hlen : ip.length ≠ 16
+  · have hlen' : ((ip.length : Nat) : Int) ≠ 16 := by omega
+    rw [if_pos hlen, if_pos hlen']
+    exact copy_last l sNil
+  · have hlen' : ¬ ((ip.length : Nat) : Int) ≠ 16 := by omega
+    rw [if_neg hlen, if_neg hlen']
+    have h1 := ip6_loop1_eq ip 8 9 (-1) (-1) (by omega) (by omega)
+    have hf : ((8 : Int) - (0 : Int)).toNat + 1 = 9 := by decide
+    dsimp only
+    rw [hf]
+    have h80 : (((8 - 8 : Nat) : Nat) : Int) = (0 : Int) := by decide
+    rw [h80] at h1
+    rw [h1]
+    apply val_step; intro se
+    obtain ⟨s0, e⟩ := se
+    dsimp only
+    generalize hs : (if e = s0 then (99 : Int) else s0) = s
+    have hs' : ((if e = s0 then pure 99 else pure s0) : Outcome Int) = .ok s := by
+      rw [← hs]; split <;> rfl
+    rw [hs', Outcome.bind_ok]
+    have h3 := ip6_loop3_eq ip s e 8 9 l (by omega) (by omega)
+    rw [h80] at h3
+    rw [h3]
+    cases hl : ip6Loop ip s e 8 l with
+    | ok l' =>
+      simp only [liftG_ok, Outcome.bind_ok]
+      by_cases he : e < 7
+      · have hp := ip6Loop_pos ip s e he 8 (by omega) (by omega) l l' hl
+        have hne : ¬ l'.idx = 0 := by omega
+        rw [if_pos he, if_pos he, decIdx, if_neg hne]
+        simp only [Outcome.pure_eq, liftG_ok, G]
+        congr 2; omega
+      · rw [if_neg he, if_neg he]; rfl
+    | panic => rfl
+    | err x => rfl
+    | hang => rfl
+
 /-- every method of `*fastlog.Line` is a candidate; these are the ones the translator expresses -/
 theorem translated_accounted : fastlogLoopsTranslated.map (·.1) =
     ["fastlog.(*Line).Bool", "fastlog.(*Line).ByteArray", "fastlog.(*Line).Bytes", "fastlog.(*Line).LF",
